@@ -364,7 +364,8 @@ class Check:
         if not signature.startswith(self.pid):
             return  # clause of another property: not this check's business
         for f in load_findings():
-            if f.get("status") == "known" and f["property"] == self.pid and f["signature"] == signature:
+            if f.get("status") == "known" and f["property"] == self.pid and \
+                    (f["signature"] == signature or (f.get("match") == "prefix" and signature.startswith(f["signature"]))):
                 if not any(k[0] == signature for k in self.known):
                     self.known.append((signature, f.get("what", what)))
                 return
